@@ -164,3 +164,40 @@ Definition lips_const (m0 a0 : R) (tl : list R) : R :=
       end
   | _ => 1
   end / wt_max m0 a0 tl.
+
+(* ------------------------------------------------------------------ cal_max_weight (phasespace.py, after the repair of the
+   hunt round: scan of uniform proposals, optimiser started from the best one, result never below the scan).
+   Relative weights are weights under the stored bound wt0 (the analytic w_max of set_decay):
+     ws = relative weights of the scanned proposals, w0 = max ws, the optimiser (scipy L-BFGS-B: an ORACLE) returns
+     r = w(x_opt) / w0; the code stores   m_wtMax := wt0 * (max(1, r) * w0 * 1.001). *)
+Fixpoint rmaxl (l : list R) : R := match l with [] => 0 | x :: l' => rmax x (rmaxl l') end.
+Definition cal_max_new (wt0 : R) (ws : list R) (r : R) : R := wt0 * (rmax 1 r * rmaxl ws * (1001 / 1000)).
+(* the code before the repair: ONE optimiser run from one random proposal; r = relative weight at the optimiser's result *)
+Definition cal_max_old (wt0 r : R) : R := wt0 * (r * (1001 / 1000)).
+(* weight of a ladder of relative weight w (under wt0) after the bound has been replaced by wnew *)
+Definition reweight (wt0 wnew w : R) : R := w * wt0 / wnew.
+
+(* ------------------------------------------------------------------ set_decay as a state update.  The state the other methods
+   read: m0, m_mass, sum_mass, m_nt (mass_range, m_wtMax are functions of these: mass_ranges / wt_max above). *)
+Record gen_state : Type := GS { g_m0 : R; g_mass : list R; g_sum : R; g_nt : nat }.
+Definition init_state (m0 : R) (mass : list R) : gen_state := GS m0 mass (rsum mass) (length mass).
+(* after the repair: set_decay resets m_mass and recomputes sum_mass (mass_range, mass_generator) *)
+Definition set_decay_new (st : gen_state) (m0 : R) (mass : list R) : gen_state := GS m0 mass (rsum mass) (length mass).
+(* before: m_mass appended, sum_mass (and mass_range) kept from __init__ *)
+Definition set_decay_old (st : gen_state) (m0 : R) (mass : list R) : gen_state := GS m0 (g_mass st ++ mass) (g_sum st) (length mass).
+
+(* ------------------------------------------------------------------ config_loader/sample.py build_phsp_chain: which common inner
+   node is generated with a fixed mass.  parts = for every decay chain of the group (is the particle at this node a
+   constant "one" model?, its mass).  After the repair: all chains constant with one and the same mass. *)
+Definition same_mass (m : R) (p : bool * R) : bool := if Req_EM_T (snd p) m then true else false.
+Definition nest_node (parts : list (bool * R)) : option R :=
+  match parts with
+  | [] => None
+  | (_, m) :: _ => if andb (forallb fst parts) (forallb (same_mass m) parts) then Some m else None
+  end.
+(* before: the first chain decides *)
+Definition nest_node_old (parts : list (bool * R)) : option R :=
+  match parts with
+  | (true, m) :: _ => Some m
+  | _ => None
+  end.
